@@ -30,7 +30,7 @@ theorem C02_routes_agree (ops : List UOp) (hg : OpsGuarded ops St.init) (u v : I
     (hsame : ∀ σ, denN ⟪ops⟫.m.tbl u σ = denN ⟪ops⟫.m.tbl v σ) : u = v :=
   have hG := reachable_inv ops hg
   (C02_canonical_every_history ops hg u v hu hv).mp
-    (den_of_denN hG.inv.wf.toWF hG.order u v hu hv hsame)
+    (den_of_denN_tbl hG.inv.wf.toWF hG.order u v hu hv hsame)
 
 /-- C02 ("every route", across time): a reference `u` the user holds since the prefix `pre` and
 does not release; ANY continuation `post` (collections, rejected calls, re-used numbers …) that
